@@ -1,12 +1,970 @@
-//! C16 — stub (not built yet).
+//! C16 — cubic splines interpolate, are C2, honour their end conditions and coincide with the
+//! unique such spline computed independently.
+//!
+//! Reference model (`refspline`): the spline equations in the *moment* formulation
+//! (mu_i M_{i-1} + 2 M_i + lambda_i M_{i+1} = 6 [y_{i-1}, y_i, y_{i+1}], natural or clamped end rows),
+//! assembled as a dense matrix and solved with a partial-pivot LU written here; pieces are kept in
+//! local form a + b t + c t^2 + d t^3, t = x - x_i. The reference checks itself (C2 and end
+//! conditions in local form) before it is used.
+//! Observations: `evaluate` and `evaluate_derivative` at every knot, at the one-ulp neighbours of
+//! every interior knot, at 8 interior points per piece, and outside the knot range.
+
+use crate::json::J;
+use crate::probe::{self, Guarded};
 use crate::report::*;
+use crate::rng::{CaseHash, Rng};
+use bacon_sci::interp::{spline_clamped, spline_free, CubicSpline};
+use nalgebra::ComplexField;
+use num_complex::Complex;
+use num_traits::FromPrimitive;
+
+const EPS: f64 = f64::EPSILON;
+type C64 = Complex<f64>;
+
+// ---- frozen constants. `unit_v`, `unit_d` are the rounding units defined in `RefSpline::units`:
+//   unit_v(x) = eps [ |a| + B u + |c| u^2 + D u^3  +  sb t + sc t^2 + sd t^3 ],   u = |x| + |x_i|, t = |x - x_i|
+//   unit_d(x) = eps [ B + 2|c| u + 3 D u^2        +  sb + 2 sc t + 3 sd t^2 ]
+// (first group: the library stores the piece expanded in powers of x and evaluates it by Horner there,
+//  B >= |b| and D >= |d| are the cancellation-free magnitudes; second group: componentwise forward error
+//  bound |A^-1| (|A||M| + |rhs|) of the tridiagonal solve, propagated to b, c, d)
+/// value against the reference:           |S(x) - ref(x)|  <= KV unit_v(x)       [observed max 1.69 over 16 runs / 800 000 splines]
+const KV: f64 = 24.0;
+/// derivative against the reference:      |S'(x) - ref'(x)| <= KD unit_d(x)      [observed max 2.38]
+const KD: f64 = 32.0;
+/// second derivatives recovered from three derivative samples of a piece (exact for quadratics):
+/// |S''_left - S''_right| (interior knots), |S''| (free ends) <= KS sum_j |w_j| unit_d(x_j)   [observed max 0.61 (jumps) / 1.18 (free ends)]
+const KS: f64 = 16.0;
+/// reproduction of cubics (clamped) / lines (free): the sampled ordinates and end slopes carry rounding errors
+/// <= eps qmax, eps q'max (qmax = max_i sum_k |q_k||x_i|^k); the spline operator is linear, so with its cardinal
+/// splines L_j (ordinates), G_0, G_1 (end slopes), computed by the reference model:
+/// |S(x) - q(x)|   <= KQ (unit_v(x) + eps (sum_j|L_j(x)| qmax + (|G_0(x)|+|G_1(x)|) q'max))
+/// |S'(x) - q'(x)| <= KQ (unit_d(x) + eps (sum_j|L_j'(x)| qmax + (|G_0'(x)|+|G_1'(x)|) q'max))    [observed max 0.92 / 0.69]
+const KQ: f64 = 16.0;
+
+// ------------------------------------------------------------------ field abstraction
+
+trait Fld: ComplexField<RealField = f64> + FromPrimitive + Copy + 'static {
+    const NAME: &'static str;
+    const COMPLEX: bool;
+    fn mk(v: C64) -> Self;
+    fn c(self) -> C64;
+}
+impl Fld for f64 {
+    const NAME: &'static str = "f64";
+    const COMPLEX: bool = false;
+    fn mk(v: C64) -> f64 {
+        v.re
+    }
+    fn c(self) -> C64 {
+        C64::new(self, 0.0)
+    }
+}
+impl Fld for C64 {
+    const NAME: &'static str = "Complex<f64>";
+    const COMPLEX: bool = true;
+    fn mk(v: C64) -> C64 {
+        v
+    }
+    fn c(self) -> C64 {
+        self
+    }
+}
+
+fn next_up(x: f64) -> f64 {
+    if x.is_nan() || x == f64::INFINITY {
+        return x;
+    }
+    if x == 0.0 {
+        return f64::from_bits(1);
+    }
+    let b = x.to_bits();
+    f64::from_bits(if x > 0.0 { b + 1 } else { b - 1 })
+}
+fn next_down(x: f64) -> f64 {
+    -next_up(-x)
+}
+
+// ------------------------------------------------------------------ reference model
+
+mod refspline {
+    use super::{C64, EPS};
+
+    /// Dense LU with partial pivoting (Doolittle, row interchanges), real matrix.
+    pub struct Lu {
+        n: usize,
+        lu: Vec<f64>,
+        perm: Vec<usize>,
+    }
+    impl Lu {
+        pub fn factor(a: &[f64], n: usize) -> Option<Lu> {
+            let mut lu = a.to_vec();
+            let mut perm: Vec<usize> = (0..n).collect();
+            for k in 0..n {
+                let mut p = k;
+                let mut best = lu[k * n + k].abs();
+                for r in k + 1..n {
+                    if lu[r * n + k].abs() > best {
+                        best = lu[r * n + k].abs();
+                        p = r;
+                    }
+                }
+                if !(best > 0.0) {
+                    return None;
+                }
+                if p != k {
+                    for c in 0..n {
+                        lu.swap(k * n + c, p * n + c);
+                    }
+                    perm.swap(k, p);
+                }
+                let piv = lu[k * n + k];
+                for r in k + 1..n {
+                    let m = lu[r * n + k] / piv;
+                    lu[r * n + k] = m;
+                    if m != 0.0 {
+                        for c in k + 1..n {
+                            lu[r * n + c] -= m * lu[k * n + c];
+                        }
+                    }
+                }
+            }
+            Some(Lu { n, lu, perm })
+        }
+        pub fn solve(&self, b: &[f64]) -> Vec<f64> {
+            let n = self.n;
+            let mut y: Vec<f64> = (0..n).map(|i| b[self.perm[i]]).collect();
+            for r in 0..n {
+                for c in 0..r {
+                    y[r] -= self.lu[r * n + c] * y[c];
+                }
+            }
+            for r in (0..n).rev() {
+                for c in r + 1..n {
+                    y[r] -= self.lu[r * n + c] * y[c];
+                }
+                y[r] /= self.lu[r * n + r];
+            }
+            y
+        }
+    }
+
+    pub struct RefSpline {
+        pub x: Vec<f64>,
+        pub h: Vec<f64>,
+        pub y: Vec<C64>,
+        /// local coefficients per piece
+        pub b: Vec<C64>,
+        pub c: Vec<C64>,
+        pub d: Vec<C64>,
+        /// cancellation-free magnitudes of b and d
+        pub bb: Vec<f64>,
+        pub dd: Vec<f64>,
+        /// forward error scale of the solve (in units of eps) propagated to b, c, d
+        pub sb: Vec<f64>,
+        pub sc: Vec<f64>,
+        pub sd: Vec<f64>,
+    }
+
+    pub fn build(x: &[f64], y: &[C64], clamp: Option<(C64, C64)>) -> RefSpline {
+        build_opt(x, y, clamp, true)
+    }
+
+    /// `with_scales = false` skips the forward-error scales (used for the cardinal splines)
+    pub fn build_opt(x: &[f64], y: &[C64], clamp: Option<(C64, C64)>, with_scales: bool) -> RefSpline {
+        let n = x.len();
+        assert!(n >= 2 && y.len() == n);
+        let h: Vec<f64> = (0..n - 1).map(|i| x[i + 1] - x[i]).collect();
+        let slope: Vec<C64> = (0..n - 1).map(|i| (y[i + 1] - y[i]) / h[i]).collect();
+        let mut a = vec![0.0f64; n * n];
+        let mut rhs = vec![C64::new(0.0, 0.0); n];
+        let mut rmag = vec![0.0f64; n];
+        for i in 1..n - 1 {
+            let s = h[i - 1] + h[i];
+            a[i * n + i - 1] = h[i - 1] / s;
+            a[i * n + i] = 2.0;
+            a[i * n + i + 1] = h[i] / s;
+            rhs[i] = (slope[i] - slope[i - 1]) * (6.0 / s);
+            rmag[i] = (slope[i].norm() + slope[i - 1].norm()) * (6.0 / s);
+        }
+        match clamp {
+            None => {
+                a[0] = 1.0;
+                a[(n - 1) * n + n - 1] = 1.0;
+            }
+            Some((f0, f1)) => {
+                a[0] = 2.0;
+                a[1] = 1.0;
+                rhs[0] = (slope[0] - f0) * (6.0 / h[0]);
+                rmag[0] = (slope[0].norm() + f0.norm()) * (6.0 / h[0]);
+                a[(n - 1) * n + n - 2] = 1.0;
+                a[(n - 1) * n + n - 1] = 2.0;
+                rhs[n - 1] = (f1 - slope[n - 2]) * (6.0 / h[n - 2]);
+                rmag[n - 1] = (slope[n - 2].norm() + f1.norm()) * (6.0 / h[n - 2]);
+            }
+        }
+        let lu = Lu::factor(&a, n).expect("spline matrix is strictly diagonally dominant");
+        let re = lu.solve(&rhs.iter().map(|v| v.re).collect::<Vec<_>>());
+        let im = lu.solve(&rhs.iter().map(|v| v.im).collect::<Vec<_>>());
+        let m: Vec<C64> = (0..n).map(|i| C64::new(re[i], im[i])).collect();
+        // componentwise forward error scale  |A^-1| (|A| |M| + |rhs|)
+        let mut r = vec![0.0f64; n];
+        for i in 0..n {
+            let mut s = rmag[i];
+            for j in 0..n {
+                s += a[i * n + j].abs() * m[j].norm();
+            }
+            r[i] = s;
+        }
+        let mut sm = vec![0.0f64; n];
+        let mut e = vec![0.0f64; n];
+        for j in 0..if with_scales { n } else { 0 } {
+            e.iter_mut().for_each(|v| *v = 0.0);
+            e[j] = 1.0;
+            let col = lu.solve(&e); // column j of A^-1
+            for i in 0..n {
+                sm[i] += col[i].abs() * r[j];
+            }
+        }
+        let mut out = RefSpline { x: x.to_vec(), h: h.clone(), y: y.to_vec(), b: vec![], c: vec![], d: vec![], bb: vec![], dd: vec![], sb: vec![], sc: vec![], sd: vec![] };
+        for i in 0..n - 1 {
+            out.b.push(slope[i] - (m[i] * 2.0 + m[i + 1]) * (h[i] / 6.0));
+            out.c.push(m[i] * 0.5);
+            out.d.push((m[i + 1] - m[i]) / (6.0 * h[i]));
+            out.bb.push(slope[i].norm() + (2.0 * m[i].norm() + m[i + 1].norm()) * (h[i] / 6.0));
+            out.dd.push((m[i + 1].norm() + m[i].norm()) / (6.0 * h[i]));
+            out.sb.push((2.0 * sm[i] + sm[i + 1]) * (h[i] / 6.0));
+            out.sc.push(sm[i] * 0.5);
+            out.sd.push((sm[i + 1] + sm[i]) / (6.0 * h[i]));
+        }
+        out
+    }
+
+    impl RefSpline {
+        /// value and derivative of piece i at x (local form)
+        pub fn eval(&self, i: usize, x: f64) -> (C64, C64) {
+            let t = x - self.x[i];
+            let v = self.y[i] + (self.b[i] + (self.c[i] + self.d[i] * t) * t) * t;
+            let dv = self.b[i] + (self.c[i] * 2.0 + self.d[i] * (3.0 * t)) * t;
+            (v, dv)
+        }
+        pub fn second(&self, i: usize, x: f64) -> C64 {
+            let t = x - self.x[i];
+            self.c[i] * 2.0 + self.d[i] * (6.0 * t)
+        }
+        /// rounding units (value, derivative) of piece i at x
+        pub fn units(&self, i: usize, x: f64) -> (f64, f64) {
+            let t = (x - self.x[i]).abs();
+            let u = x.abs() + self.x[i].abs();
+            let (a, bb, c, dd) = (self.y[i].norm(), self.bb[i], self.c[i].norm(), self.dd[i]);
+            let uv = a + bb * u + c * u * u + dd * u * u * u + self.sb[i] * t + self.sc[i] * t * t + self.sd[i] * t * t * t;
+            let ud = bb + 2.0 * c * u + 3.0 * dd * u * u + self.sb[i] + 2.0 * self.sc[i] * t + 3.0 * self.sd[i] * t * t;
+            (EPS * uv, EPS * ud)
+        }
+        /// Does the reference itself satisfy the defining conditions (in local form)? Returns the worst
+        /// ratio of a defect to its rounding unit.
+        pub fn selfcheck(&self, clamp: Option<(C64, C64)>) -> f64 {
+            let n = self.x.len();
+            let mut worst = 0.0f64;
+            for i in 0..n - 1 {
+                let xr = self.x[i + 1];
+                let (v, dv) = self.eval(i, xr);
+                let (uv, ud) = self.units(i, xr);
+                worst = worst.max((v - self.y[i + 1]).norm() / uv.max(f64::MIN_POSITIVE));
+                if i + 1 < n - 1 {
+                    worst = worst.max((dv - self.b[i + 1]).norm() / ud.max(f64::MIN_POSITIVE));
+                    let u2 = EPS * (2.0 * (self.c[i].norm() + self.sc[i]) + 6.0 * (self.dd[i] + self.sd[i]) * self.h[i]);
+                    worst = worst.max((self.second(i, xr) - self.c[i + 1] * 2.0).norm() / u2.max(f64::MIN_POSITIVE));
+                }
+            }
+            let (_, dl) = self.eval(n - 2, self.x[n - 1]);
+            let (_, udl) = self.units(n - 2, self.x[n - 1]);
+            let (_, ud0) = self.units(0, self.x[0]);
+            match clamp {
+                None => {
+                    let u2 = EPS * (2.0 * (self.c[n - 2].norm() + self.sc[n - 2]) + 6.0 * (self.dd[n - 2] + self.sd[n - 2]) * self.h[n - 2]);
+                    worst = worst.max(self.c[0].norm() / f64::MIN_POSITIVE.max(EPS * self.sc[0]));
+                    worst = worst.max(self.second(n - 2, self.x[n - 1]).norm() / u2.max(f64::MIN_POSITIVE));
+                }
+                Some((f0, f1)) => {
+                    worst = worst.max((self.b[0] - f0).norm() / ud0.max(f64::MIN_POSITIVE));
+                    worst = worst.max((dl - f1).norm() / udl.max(f64::MIN_POSITIVE));
+                }
+            }
+            worst
+        }
+    }
+
+    /// Cardinal splines of the interpolation operator on these knots: one per ordinate and, clamped,
+    /// one per end slope. `at` returns (sum_j |L_j(x)|, sum_j |L_j'(x)|, |G_0(x)|+|G_1(x)|, |G_0'(x)|+|G_1'(x)|).
+    pub struct Cardinals {
+        ord: Vec<RefSpline>,
+        slope: Vec<RefSpline>,
+    }
+    impl Cardinals {
+        pub fn new(x: &[f64], clamped: bool) -> Cardinals {
+            let n = x.len();
+            let z = C64::new(0.0, 0.0);
+            let one = C64::new(1.0, 0.0);
+            let mut ord = vec![];
+            for j in 0..n {
+                let mut y = vec![z; n];
+                y[j] = one;
+                ord.push(build_opt(x, &y, if clamped { Some((z, z)) } else { None }, false));
+            }
+            let mut slope = vec![];
+            if clamped {
+                let y = vec![z; n];
+                slope.push(build_opt(x, &y, Some((one, z)), false));
+                slope.push(build_opt(x, &y, Some((z, one)), false));
+            }
+            Cardinals { ord, slope }
+        }
+        pub fn at(&self, i: usize, x: f64) -> (f64, f64, f64, f64) {
+            let mut r = (0.0, 0.0, 0.0, 0.0);
+            for s in &self.ord {
+                let (v, d) = s.eval(i, x);
+                r.0 += v.norm();
+                r.1 += d.norm();
+            }
+            for s in &self.slope {
+                let (v, d) = s.eval(i, x);
+                r.2 += v.norm();
+                r.3 += d.norm();
+            }
+            r
+        }
+    }
+
+    /// weights w_j with  q'(at) = sum_j w_j q(t_j)  for the quadratic q through three abscissae
+    pub fn quad_deriv_weights(t: [f64; 3], at: f64) -> [f64; 3] {
+        let mut w = [0.0; 3];
+        for j in 0..3 {
+            let (l, m) = ((j + 1) % 3, (j + 2) % 3);
+            w[j] = ((at - t[l]) + (at - t[m])) / ((t[j] - t[l]) * (t[j] - t[m]));
+        }
+        w
+    }
+}
+
+use refspline::RefSpline;
+
+// ------------------------------------------------------------------ cases
+
+#[derive(Clone, Copy, PartialEq, Eq, Debug)]
+enum DataMode {
+    Arbitrary,
+    Smooth,
+    /// cubic (clamped) / straight line (free): must be reproduced
+    Reproduce,
+}
+
+#[derive(Clone)]
+struct Case {
+    clamped: bool,
+    xs: Vec<f64>,
+    ys: Vec<C64>,
+    slopes: (C64, C64),
+    tol: f64,
+    mode: DataMode,
+    /// ascending coefficients of the sampled polynomial (mode Reproduce)
+    q: Vec<C64>,
+}
+
+impl Case {
+    fn json<N: Fld>(&self) -> J {
+        let mut j = J::obj()
+            .set("constructor", if self.clamped { "spline_clamped" } else { "spline_free" })
+            .set("field", N::NAME)
+            .set("xs", J::fs(&self.xs))
+            .set("ys_re", J::fs(&self.ys.iter().map(|v| v.re).collect::<Vec<_>>()));
+        if N::COMPLEX {
+            j.put("ys_im", J::fs(&self.ys.iter().map(|v| v.im).collect::<Vec<_>>()));
+        }
+        if self.clamped {
+            j.put("end_slopes", J::Arr(vec![J::fs(&[self.slopes.0.re, self.slopes.0.im]), J::fs(&[self.slopes.1.re, self.slopes.1.im])]));
+        }
+        j.put("tol", self.tol);
+        j.put("data", format!("{:?}", self.mode));
+        if self.mode == DataMode::Reproduce {
+            j.put("sampled_polynomial_ascending", J::Arr(self.q.iter().map(|v| J::fs(&[v.re, v.im])).collect::<Vec<_>>()));
+        }
+        j
+    }
+    fn ratio(&self) -> f64 {
+        let hs: Vec<f64> = self.xs.windows(2).map(|w| w[1] - w[0]).collect();
+        let mx = hs.iter().fold(0.0f64, |a, b| a.max(*b));
+        let mn = hs.iter().fold(f64::INFINITY, |a, b| a.min(*b));
+        mx / mn
+    }
+}
+
+fn gen_knots(rng: &mut Rng, n: usize) -> Vec<f64> {
+    let style = rng.below(10);
+    if style == 0 {
+        // equally spaced integers (the shape of the existing tests), shifted
+        let x0 = rng.int(-10, 10 - (n as i64 - 1).min(20)) as f64;
+        let step = if n > 21 { 20.0 / (n as f64 - 1.0) } else { 1.0 };
+        return (0..n).map(|i| if n > 21 { -10.0 + step * i as f64 } else { x0 + i as f64 }).collect();
+    }
+    let rmax = 50f64.powf(rng.f());
+    let hs: Vec<f64> = (0..n - 1).map(|_| rmax.powf(rng.f())).collect();
+    let total: f64 = hs.iter().sum();
+    let len = 20.0 * 10f64.powf(-rng.r(0.0, 1.5)) * (1.0 - 1e-12);
+    let x0 = rng.r(-10.0, 10.0 - len);
+    let mut xs = vec![x0];
+    for h in &hs {
+        let nx = xs.last().unwrap() + h * len / total;
+        xs.push(nx);
+    }
+    if style == 1 && xs[0] < 0.0 && xs[n - 1] > 0.0 {
+        // shift the whole grid so that the knot nearest to 0 is exactly 0 (spacings keep their ratios)
+        let k = (0..n).min_by(|a, b| xs[*a].abs().partial_cmp(&xs[*b].abs()).unwrap()).unwrap();
+        let s = xs[k];
+        if xs[0] - s >= -10.0 && xs[n - 1] - s <= 10.0 {
+            for x in xs.iter_mut() {
+                *x -= s;
+            }
+            xs[k] = 0.0;
+        }
+    }
+    // strictly increasing is the premise
+    for i in 1..n {
+        if !(xs[i] > xs[i - 1]) {
+            xs[i] = next_up(xs[i - 1]);
+        }
+    }
+    xs
+}
+
+/// value, derivative, sum_k |q_k||x|^k, sum_k k|q_k||x|^(k-1)
+fn polyval(q: &[C64], x: f64) -> (C64, C64, f64, f64) {
+    let mut v = C64::new(0.0, 0.0);
+    let mut dv = C64::new(0.0, 0.0);
+    let mut mag = 0.0;
+    let mut dmag = 0.0;
+    for k in (0..q.len()).rev() {
+        dv = dv * x + v;
+        v = v * x + q[k];
+        dmag = dmag * x.abs() + mag;
+        mag = mag * x.abs() + q[k].norm();
+    }
+    (v, dv, mag, dmag)
+}
+
+fn gen_case(rng: &mut Rng, complex: bool, clamped: bool, n: usize, mode: DataMode) -> Case {
+    let xs = gen_knots(rng, n);
+    let scale = rng.log10(-2.0, 2.0);
+    let cplx = |rng: &mut Rng, s: f64| C64::new(s * rng.r(-1.0, 1.0), if complex { s * rng.r(-1.0, 1.0) } else { 0.0 });
+    let mut q = vec![];
+    let (ys, slopes) = match mode {
+        DataMode::Arbitrary => {
+            let ys = (0..n).map(|_| cplx(rng, scale)).collect();
+            (ys, (cplx(rng, scale), cplx(rng, scale)))
+        }
+        DataMode::Smooth => {
+            let w = rng.r(0.2, 2.0);
+            let ph = rng.r(0.0, 6.0);
+            let f = |x: f64| C64::new(scale * (w * x + ph).sin(), if complex { scale * (0.7 * w * x - ph).cos() } else { 0.0 });
+            let df = |x: f64| C64::new(scale * w * (w * x + ph).cos(), if complex { -scale * 0.7 * w * (0.7 * w * x - ph).sin() } else { 0.0 });
+            let ys = xs.iter().map(|x| f(*x)).collect();
+            // end slopes: the true ones, or perturbed
+            let p = if rng.bool() { 1.0 } else { rng.r(-2.0, 2.0) };
+            (ys, (df(xs[0]) * p, df(xs[n - 1]) * p))
+        }
+        DataMode::Reproduce => {
+            let deg = if clamped { 3 } else { 1 };
+            q = (0..=deg).map(|k| cplx(rng, scale / 10f64.powi(k as i32))).collect();
+            let ys = xs.iter().map(|x| polyval(&q, *x).0).collect();
+            (ys, (polyval(&q, xs[0]).1, polyval(&q, xs[n - 1]).1))
+        }
+    };
+    Case { clamped, xs, ys, slopes, tol: rng.log10(-14.0, -6.0), mode, q }
+}
+
+fn construct<N: Fld>(c: &Case) -> Guarded<Result<CubicSpline<N>, String>> {
+    let ys: Vec<N> = c.ys.iter().map(|v| N::mk(*v)).collect();
+    let xs = c.xs.clone();
+    let tol = c.tol;
+    let sl = (N::mk(c.slopes.0), N::mk(c.slopes.1));
+    let clamped = c.clamped;
+    probe::guard(move || if clamped { spline_clamped::<N>(&xs, &ys, sl, tol) } else { spline_free::<N>(&xs, &ys, tol) })
+}
+
+/// what the library returned at one abscissa: (evaluate, evaluate_derivative)
+fn observe<N: Fld>(s: &CubicSpline<N>, x: f64) -> Result<(C64, C64, C64), String> {
+    match probe::guard(|| (s.evaluate(x), s.evaluate_derivative(x))) {
+        Guarded::Ok((Ok(v), Ok((v2, d)))) => Ok((v.c(), v2.c(), d.c())),
+        Guarded::Ok((a, b)) => Err(format!("evaluate -> {:?}, evaluate_derivative -> {:?}", a.map(|v| v.c()), b.map(|v| (v.0.c(), v.1.c())))),
+        Guarded::Panic(m, l) => Err(format!("panic '{}' at {}", m, l)),
+        Guarded::Budget => Err("budget".into()),
+    }
+}
+
+struct Judge<'a> {
+    name: &'static str,
+    rf: &'a RefSpline,
+    case: &'a dyn Fn() -> J,
+    fired: std::collections::BTreeSet<String>,
+    worst: f64,
+}
+
+impl<'a> Judge<'a> {
+    fn flag(&mut self, rep: &mut Report, sig: &str, extra: J, detail: String) {
+        // one stored violation per signature and spline
+        if self.fired.insert(sig.to_string()) {
+            let mut c = (self.case)();
+            c.put("at", extra);
+            rep.violation(&format!("{}/{}", self.name, sig), c, detail);
+        }
+    }
+    /// compare one observation with piece `i` of the reference
+    fn against_reference(&mut self, rep: &mut Report, i: usize, x: f64, obs: &(C64, C64, C64), where_: &str) {
+        let (rv, rd) = self.rf.eval(i, x);
+        let (uv, ud) = self.rf.units(i, x);
+        let ev = (obs.0 - rv).norm().max((obs.1 - rv).norm());
+        let ed = (obs.2 - rd).norm();
+        let (qv, qd) = (if ev == 0.0 { 0.0 } else { ev / uv }, if ed == 0.0 { 0.0 } else { ed / ud });
+        rep.max(&format!("{}/value_err_over_unit", self.name), qv);
+        rep.max(&format!("{}/derivative_err_over_unit", self.name), qd);
+        self.worst = self.worst.max(qv).max(qd);
+        rep.count(&format!("{}/points_{}", self.name, where_), 1);
+        if !(ev <= KV * uv) {
+            self.flag(
+                rep,
+                "value-differs-from-reference",
+                J::obj().set("x", x).set("piece", i).set("where", where_).set("evaluate", J::fs(&[obs.0.re, obs.0.im])).set("evaluate_derivative.0", J::fs(&[obs.1.re, obs.1.im])).set("reference", J::fs(&[rv.re, rv.im])),
+                format!("S({:e}) ({}, piece {}): evaluate = {:e}{:+e}i, evaluate_derivative.0 = {:e}{:+e}i, independent spline = {:e}{:+e}i; |error| {:e} > {} units = {:e}", x, where_, i, obs.0.re, obs.0.im, obs.1.re, obs.1.im, rv.re, rv.im, ev, KV, KV * uv),
+            );
+        }
+        if !(ed <= KD * ud) {
+            self.flag(
+                rep,
+                "derivative-differs-from-reference",
+                J::obj().set("x", x).set("piece", i).set("where", where_).set("derivative", J::fs(&[obs.2.re, obs.2.im])).set("reference", J::fs(&[rd.re, rd.im])),
+                format!("S'({:e}) ({}, piece {}): library {:e}{:+e}i, independent spline {:e}{:+e}i; |error| {:e} > {} units = {:e}", x, where_, i, obs.2.re, obs.2.im, rd.re, rd.im, ed, KD, KD * ud),
+            );
+        }
+    }
+}
+
+fn run_spline<N: Fld>(rep: &mut Report, c: &Case, stage_tag: &str) {
+    let name: &'static str = match (c.clamped, N::COMPLEX) {
+        (false, false) => "free/f64",
+        (false, true) => "free/complex",
+        (true, false) => "clamped/f64",
+        (true, true) => "clamped/complex",
+    };
+    let case = || c.json::<N>();
+    let n = c.xs.len();
+    rep.eval();
+    rep.count(&format!("{}/splines", name), 1);
+    let s = match construct::<N>(c) {
+        Guarded::Ok(Ok(s)) => s,
+        Guarded::Ok(Err(e)) => {
+            rep.violation(&format!("{}/valid-input-rejected", name), case(), format!("strictly increasing knots, matching lengths, {} points: Err({})", n, e));
+            return;
+        }
+        Guarded::Panic(m, l) => {
+            rep.violation(&format!("{}/panic", name), case(), format!("constructor panicked: '{}' at {}", m, l));
+            return;
+        }
+        Guarded::Budget => return,
+    };
+    let clamp = if c.clamped { Some(c.slopes) } else { None };
+    let rf = refspline::build(&c.xs, &c.ys, clamp);
+    let sc = rf.selfcheck(clamp);
+    rep.max("reference_selfcheck_defect_over_unit", sc);
+    if !(sc <= 64.0) {
+        panic!("C16 reference model fails its own defining conditions: defect {} units; case {}", sc, case().to_string_compact());
+    }
+    let mut jd = Judge { name, rf: &rf, case: &case, fired: Default::default(), worst: 0.0 };
+    let np = n - 1;
+    // observations, per piece: [near-left, 8 interior, near-right]
+    let mut grid: Vec<Vec<(f64, (C64, C64, C64))>> = vec![];
+    let mut failed = false;
+    let obs_at = |rep: &mut Report, jd: &mut Judge, x: f64| -> Option<(C64, C64, C64)> {
+        match observe::<N>(&s, x) {
+            Ok(o) => Some(o),
+            Err(e) => {
+                jd.flag(rep, "inside-range-not-evaluated", J::obj().set("x", x), format!("x = {:e} lies in [{:e}, {:e}] but {}", x, c.xs[0], c.xs[n - 1], e));
+                None
+            }
+        }
+    };
+    for i in 0..np {
+        let (xl, xr) = (c.xs[i], c.xs[i + 1]);
+        let h = xr - xl;
+        let mut pts: Vec<(f64, &str)> = vec![];
+        // left end: the knot itself for the first piece, else its upper neighbour (only piece i contains it)
+        pts.push(if i == 0 { (xl, "first-knot") } else { (next_up(xl), "knot+1ulp") });
+        for j in 1..=8 {
+            let x = xl + h * (j as f64 / 9.0);
+            if x > pts.last().unwrap().0 && x < xr {
+                pts.push((x, "interior"));
+            }
+        }
+        let right = if i == np - 1 { (xr, "last-knot") } else { (next_down(xr), "knot-1ulp") };
+        if right.0 > pts.last().unwrap().0 {
+            pts.push(right);
+        }
+        let mut row = vec![];
+        for (x, w) in pts {
+            match obs_at(rep, &mut jd, x) {
+                Some(o) => {
+                    jd.against_reference(rep, i, x, &o, w);
+                    row.push((x, o));
+                }
+                None => failed = true,
+            }
+        }
+        grid.push(row);
+    }
+    // the knots themselves: interpolation, and either adjacent piece is acceptable for the slope
+    for k in 0..n {
+        let x = c.xs[k];
+        let o = match obs_at(rep, &mut jd, x) {
+            Some(o) => o,
+            None => {
+                failed = true;
+                continue;
+            }
+        };
+        let li = if k > 0 { k - 1 } else { 0 };
+        let ri = if k < np { k } else { np - 1 };
+        let (uvl, udl) = rf.units(li, x);
+        let (uvr, udr) = rf.units(ri, x);
+        let (uv, ud) = (uvl.max(uvr), udl.max(udr));
+        let ev = (o.0 - c.ys[k]).norm().max((o.1 - c.ys[k]).norm());
+        let q = if ev == 0.0 { 0.0 } else { ev / uv };
+        rep.max(&format!("{}/interpolation_err_over_unit", name), q);
+        rep.count(&format!("{}/points_knot", name), 1);
+        if !(ev <= KV * uv) {
+            jd.flag(
+                rep,
+                "interpolation",
+                J::obj().set("x", x).set("knot", k).set("evaluate", J::fs(&[o.0.re, o.0.im])).set("evaluate_derivative.0", J::fs(&[o.1.re, o.1.im])).set("y", J::fs(&[c.ys[k].re, c.ys[k].im])),
+                format!("S(x_{}) = {:e}{:+e}i / {:e}{:+e}i but y_{} = {:e}{:+e}i (|error| {:e} > {:e})", k, o.0.re, o.0.im, o.1.re, o.1.im, k, c.ys[k].re, c.ys[k].im, ev, KV * uv),
+            );
+        }
+        // slope at the knot: reference from the right piece at t = 0 (b_k), or the left piece's end slope for the last knot
+        let rd = if k < np { rf.b[k] } else { rf.eval(np - 1, x).1 };
+        let ed = (o.2 - rd).norm();
+        let qd = if ed == 0.0 { 0.0 } else { ed / ud };
+        rep.max(&format!("{}/derivative_err_over_unit", name), qd);
+        if !(ed <= KD * ud) {
+            jd.flag(
+                rep,
+                "derivative-differs-from-reference",
+                J::obj().set("x", x).set("knot", k).set("derivative", J::fs(&[o.2.re, o.2.im])).set("reference", J::fs(&[rd.re, rd.im])),
+                format!("S'(x_{} = {:e}): library {:e}{:+e}i, independent spline {:e}{:+e}i; |error| {:e} > {:e}", k, x, o.2.re, o.2.im, rd.re, rd.im, ed, KD * ud),
+            );
+        }
+        // clamped: prescribed end slopes, directly
+        if c.clamped && (k == 0 || k == n - 1) {
+            let want = if k == 0 { c.slopes.0 } else { c.slopes.1 };
+            let e = (o.2 - want).norm();
+            rep.max(&format!("{}/end_slope_err_over_unit", name), if e == 0.0 { 0.0 } else { e / ud });
+            rep.count(&format!("{}/end_slopes_checked", name), 1);
+            if !(e <= KD * ud) {
+                jd.flag(
+                    rep,
+                    "clamped-end-slope",
+                    J::obj().set("x", x).set("derivative", J::fs(&[o.2.re, o.2.im])).set("prescribed", J::fs(&[want.re, want.im])),
+                    format!("S'({:e}) = {:e}{:+e}i at the {} end, prescribed slope {:e}{:+e}i (|error| {:e} > {:e})", x, o.2.re, o.2.im, if k == 0 { "left" } else { "right" }, want.re, want.im, e, KD * ud),
+                );
+            }
+        }
+    }
+    // smoothness across interior knots and the free end conditions, from the observations alone
+    if !failed {
+        // second derivative of piece i at abscissa `at`, from three derivative samples of that piece
+        let second = |i: usize, at: f64| -> Option<(C64, f64)> {
+            let row = &grid[i];
+            if row.len() < 3 {
+                return None;
+            }
+            let pick = [0, row.len() / 2, row.len() - 1];
+            let t = [row[pick[0]].0 - c.xs[i], row[pick[1]].0 - c.xs[i], row[pick[2]].0 - c.xs[i]];
+            let w = refspline::quad_deriv_weights(t, at - c.xs[i]);
+            let mut v = C64::new(0.0, 0.0);
+            let mut unit = 0.0;
+            for j in 0..3 {
+                v += row[pick[j]].1 .2 * w[j];
+                unit += w[j].abs() * rf.units(i, row[pick[j]].0).1;
+            }
+            Some((v, unit))
+        };
+        for k in 1..n - 1 {
+            // C0 / C1 from the one-ulp neighbours
+            let l = grid[k - 1].last().unwrap();
+            let r = grid[k].first().unwrap();
+            let (uvl, udl) = rf.units(k - 1, l.0);
+            let (uvr, udr) = rf.units(k, r.0);
+            let jump_v = (l.1 .0 - r.1 .0).norm();
+            let jump_d = (l.1 .2 - r.1 .2).norm();
+            let qv = if jump_v == 0.0 { 0.0 } else { jump_v / (uvl + uvr) };
+            let qd = if jump_d == 0.0 { 0.0 } else { jump_d / (udl + udr) };
+            rep.max(&format!("{}/value_jump_over_unit", name), qv);
+            rep.max(&format!("{}/derivative_jump_over_unit", name), qd);
+            if !(jump_v <= KV * (uvl + uvr)) {
+                jd.flag(rep, "value-jump-at-knot", J::obj().set("knot", k).set("x", c.xs[k]), format!("S jumps by {:e} across knot {} (x = {:e}); allowed {:e}", jump_v, k, c.xs[k], KV * (uvl + uvr)));
+            }
+            if !(jump_d <= KD * (udl + udr)) {
+                jd.flag(rep, "derivative-jump-at-knot", J::obj().set("knot", k).set("x", c.xs[k]), format!("S' jumps by {:e} across knot {} (x = {:e}); allowed {:e}", jump_d, k, c.xs[k], KD * (udl + udr)));
+            }
+            if let (Some((sl, ul)), Some((sr, ur))) = (second(k - 1, c.xs[k]), second(k, c.xs[k])) {
+                let jump = (sl - sr).norm();
+                let q = if jump == 0.0 { 0.0 } else { jump / (ul + ur) };
+                rep.max(&format!("{}/second_derivative_jump_over_unit", name), q);
+                rep.count(&format!("{}/c2_knots_checked", name), 1);
+                if !(jump <= KS * (ul + ur)) {
+                    jd.flag(
+                        rep,
+                        "second-derivative-jump-at-knot",
+                        J::obj().set("knot", k).set("x", c.xs[k]).set("left", J::fs(&[sl.re, sl.im])).set("right", J::fs(&[sr.re, sr.im])),
+                        format!("S'' jumps across knot {} (x = {:e}): left piece {:e}{:+e}i, right piece {:e}{:+e}i (difference {:e} > {:e})", k, c.xs[k], sl.re, sl.im, sr.re, sr.im, jump, KS * (ul + ur)),
+                    );
+                }
+            }
+        }
+        if !c.clamped {
+            for (i, at, which) in [(0usize, c.xs[0], "left"), (np - 1, c.xs[n - 1], "right")] {
+                if let Some((s2, u)) = second(i, at) {
+                    // the unit has to cover the solve's own error scale of M at the end (which is zero for the exact spline)
+                    let u = u + EPS * 2.0 * rf.sc[i.min(np - 1)];
+                    let q = if s2.norm() == 0.0 { 0.0 } else { s2.norm() / u };
+                    rep.max(&format!("{}/free_end_second_derivative_over_unit", name), q);
+                    rep.count(&format!("{}/free_ends_checked", name), 1);
+                    if !(s2.norm() <= KS * u) {
+                        jd.flag(
+                            rep,
+                            "free-end-second-derivative",
+                            J::obj().set("x", at).set("second_derivative", J::fs(&[s2.re, s2.im])),
+                            format!("free spline: S''({:e}) = {:e}{:+e}i at the {} end (from three derivative samples of the end piece), must vanish; allowed {:e}", at, s2.re, s2.im, which, KS * u),
+                        );
+                    }
+                }
+            }
+        }
+    }
+    // reproduction of cubics / lines
+    if c.mode == DataMode::Reproduce && !failed {
+        // rounding of the sampled ordinates / end slopes, carried through the (linear) spline operator
+        let qmax = c.xs.iter().map(|x| polyval(&c.q, *x).2).fold(0.0f64, f64::max);
+        let qdmax = polyval(&c.q, c.xs[0]).3.max(polyval(&c.q, c.xs[n - 1]).3);
+        let card = refspline::Cardinals::new(&c.xs, c.clamped);
+        for (i, row) in grid.iter().enumerate() {
+            for (x, o) in row {
+                let (qv, qd, _, _) = polyval(&c.q, *x);
+                let (uv, ud) = rf.units(i, *x);
+                let (lv, ld, gv, gd) = card.at(i, *x);
+                rep.max("lebesgue_function_of_spline_operator", lv);
+                let (uv, ud) = (uv + EPS * (lv * qmax + gv * qdmax), ud + EPS * (ld * qmax + gd * qdmax));
+                let ev = (o.0 - qv).norm();
+                let ed = (o.2 - qd).norm();
+                rep.max(&format!("{}/reproduction_value_err_over_unit", name), if ev == 0.0 { 0.0 } else { ev / uv });
+                rep.max(&format!("{}/reproduction_derivative_err_over_unit", name), if ed == 0.0 { 0.0 } else { ed / ud });
+                if !(ev <= KQ * uv) || !(ed <= KQ * ud) {
+                    jd.flag(
+                        rep,
+                        if c.clamped { "cubic-not-reproduced" } else { "line-not-reproduced" },
+                        J::obj().set("x", *x).set("value", J::fs(&[o.0.re, o.0.im])).set("derivative", J::fs(&[o.2.re, o.2.im])).set("polynomial_value", J::fs(&[qv.re, qv.im])).set("polynomial_derivative", J::fs(&[qd.re, qd.im])),
+                        format!("data sampled from a {}: at x = {:e} spline value/derivative {:e}{:+e}i / {:e}{:+e}i, polynomial {:e}{:+e}i / {:e}{:+e}i (errors {:e}, {:e}; allowed {:e}, {:e})", if c.clamped { "cubic with its own end slopes" } else { "straight line" }, x, o.0.re, o.0.im, o.2.re, o.2.im, qv.re, qv.im, qd.re, qd.im, ev, ed, KQ * uv, KQ * ud),
+                    );
+                }
+            }
+        }
+        rep.count(&format!("{}/reproduction_splines", name), 1);
+    }
+    let ratio = c.ratio();
+    rep.max("spacing_ratio", ratio);
+    rep.max("knots", n as f64);
+    if n >= 4 && ratio >= 2.0 {
+        let mut h = CaseHash::new("c16").u(c.clamped as u64).u(N::COMPLEX as u64).fs(&c.xs);
+        for y in &c.ys {
+            h = h.f(y.re).f(y.im);
+        }
+        rep.nontrivial(h.0);
+        rep.count("nontrivial_splines", 1);
+        if rep.wants_sample() && n <= 8 {
+            rep.sample(case().set("stage", stage_tag).set("pieces", np).set("spacing_ratio", ratio).set("worst_error_over_unit", jd.worst).set("violations", jd.fired.len()));
+        }
+    }
+}
+
+fn run_case(rep: &mut Report, rng: &mut Rng, idx: u64, n: usize, mode: DataMode, tag: &str) {
+    let complex = idx % 2 == 1;
+    let clamped = (idx / 2) % 2 == 1;
+    let c = gen_case(rng, complex, clamped, n, mode);
+    if complex {
+        run_spline::<C64>(rep, &c, tag);
+    } else {
+        run_spline::<f64>(rep, &c, tag);
+    }
+}
+
+// ------------------------------------------------------------------ Err cases
+
+fn expect_err<T>(rep: &mut Report, sig: &str, what: &str, g: Guarded<Result<T, String>>, case: &dyn Fn() -> J) {
+    rep.eval();
+    rep.count(&format!("err/{}", sig), 1);
+    match g {
+        Guarded::Ok(Err(_)) => {
+            rep.count("err/returned_err", 1);
+        }
+        Guarded::Ok(Ok(_)) => rep.violation(&format!("err/{}", sig), case(), format!("{}: returned Ok, the property requires Err", what)),
+        Guarded::Panic(m, l) => rep.violation(&format!("err/{}", sig), case(), format!("{}: panicked ('{}' at {}), the property requires Err", what, m, l)),
+        Guarded::Budget => {}
+    }
+}
+
+fn err_case<N: Fld>(rep: &mut Report, rng: &mut Rng, kind: u64, clamped: bool) {
+    let cname = if clamped { "spline_clamped" } else { "spline_free" };
+    let build = |xs: &[f64], ys: &[C64]| -> Guarded<Result<CubicSpline<N>, String>> {
+        let ysn: Vec<N> = ys.iter().map(|v| N::mk(*v)).collect();
+        let xs = xs.to_vec();
+        probe::guard(move || if clamped { spline_clamped::<N>(&xs, &ysn, (N::mk(C64::new(0.3, 0.1)), N::mk(C64::new(-0.2, 0.4))), 1e-10) } else { spline_free::<N>(&xs, &ysn, 1e-10) })
+    };
+    let cj = |xs: &[f64], ys: &[C64]| J::obj().set("constructor", cname).set("field", N::NAME).set("xs", J::fs(xs)).set("ys_re", J::fs(&ys.iter().map(|v| v.re).collect::<Vec<_>>())).set("ys_im", J::fs(&ys.iter().map(|v| v.im).collect::<Vec<_>>())).set("end_slopes", "(0.3+0.1i, -0.2+0.4i) (real parts only for f64)").set("tol", 1e-10);
+    let rnd_ys = |rng: &mut Rng, n: usize| -> Vec<C64> { (0..n).map(|_| C64::new(rng.r(-1.0, 1.0), if N::COMPLEX { rng.r(-1.0, 1.0) } else { 0.0 })).collect() };
+    match kind {
+        0 => {
+            // evaluation outside the knot range of a valid spline
+            let n = 2 + rng.below(12);
+            let c = gen_case(rng, N::COMPLEX, clamped, n, DataMode::Arbitrary);
+            let s = match construct::<N>(&c) {
+                Guarded::Ok(Ok(s)) => s,
+                _ => {
+                    rep.inconclusive("err-stage: valid spline not constructed (reported by the other stages)");
+                    return;
+                }
+            };
+            let (a, b) = (c.xs[0], c.xs[n - 1]);
+            let d = rng.log10(-9.0, 1.0);
+            for x in [next_down(a), a - d, a - 1e3, f64::NEG_INFINITY, next_up(b), b + d, b + 1e3, f64::INFINITY] {
+                let case = || c.json::<N>().set("x", x);
+                expect_err(rep, "evaluate-outside-range", &format!("evaluate({:e}) with knot range [{:e}, {:e}]", x, a, b), probe::guard(|| s.evaluate(x)), &case);
+                expect_err(rep, "evaluate_derivative-outside-range", &format!("evaluate_derivative({:e}) with knot range [{:e}, {:e}]", x, a, b), probe::guard(|| s.evaluate_derivative(x)), &case);
+            }
+        }
+        1 => {
+            // fewer than two points
+            for n in 0..2usize {
+                let xs: Vec<f64> = (0..n).map(|i| i as f64 + rng.r(-1.0, 1.0)).collect();
+                let ys = rnd_ys(rng, n);
+                expect_err(rep, "fewer-than-two-points", &format!("{} with {} point(s)", cname, n), build(&xs, &ys), &|| cj(&xs, &ys));
+            }
+        }
+        2 => {
+            // mismatched lengths
+            let a = rng.below(7);
+            let mut b = rng.below(7);
+            if a == b {
+                b = a + 1 + rng.below(3);
+            }
+            let mut xs = vec![rng.r(-5.0, 0.0)];
+            for _ in 1..a.max(1) {
+                let nx = xs.last().unwrap() + rng.r(0.1, 1.0);
+                xs.push(nx);
+            }
+            xs.truncate(a);
+            let ys = rnd_ys(rng, b);
+            expect_err(rep, "mismatched-lengths", &format!("{} with {} abscissae and {} ordinates", cname, a, b), build(&xs, &ys), &|| cj(&xs, &ys));
+        }
+        _ => {
+            // decreasing knots
+            let n = 2 + rng.below(10);
+            let mut xs = gen_knots(rng, n);
+            let how = rng.below(4);
+            match how {
+                0 => xs.reverse(),
+                1 => {
+                    let k = rng.below(n - 1);
+                    xs.swap(k, k + 1);
+                }
+                2 => xs[n - 1] = xs[n - 2] - rng.log10(-6.0, 0.0),
+                _ => xs[0] = xs[1] + rng.log10(-6.0, 0.0),
+            }
+            let ys = rnd_ys(rng, n);
+            expect_err(rep, "decreasing-knots", &format!("{} with a decreasing pair of knots (variant {})", cname, how), build(&xs, &ys), &|| cj(&xs, &ys));
+        }
+    }
+}
+
+// ------------------------------------------------------------------ interface
 
 pub fn meta() -> CheckMeta {
-    CheckMeta { id: "C16", level: "exploration", rule: "stub".into(), assumptions: vec![], exhaustive: false, stuck_is_violation: false }
+    CheckMeta {
+        id: "C16",
+        level: "exploration",
+        rule: "cases: spline_free / spline_clamped x f64 / Complex<f64> ordinates, 2..40 strictly increasing knots in [-10,10] (random spacings with ratio up to 50, total length 0.6..20, integer grids, a knot at exactly 0), ordinates arbitrary / sampled from a smooth function / sampled from a cubic (clamped) or a line (free), random end slopes, tolerance 1e-14..1e-6; plus the Err cases. A spline is a distinct non-trivial case when it has >= 4 knots and spacing ratio >= 2 (hash of constructor, field, knots, ordinates)".into(),
+        assumptions: vec![
+            "reference: moment equations assembled densely and solved by the harness' own partial-pivot LU; it must pass its own C2/end-condition self-check (<= 64 units) before use".into(),
+            format!("bounds: value {} unit_v, derivative {} unit_d, second-derivative jumps / free ends {} sum|w| unit_d, reproduction {} (unit + eps Lebesgue-function x data magnitude); units defined at the top of c16.rs (conditioning of the expanded-in-x piece + componentwise forward error of the tridiagonal solve)", KV, KD, KS, KQ),
+            "equal knots and NaN abscissae are outside the property (premise: strictly increasing knots) and are not exercised".into(),
+        ],
+        exhaustive: false,
+        stuck_is_violation: false,
+    }
 }
-pub fn stages(_ctx: &Ctx) -> Vec<Stage> {
-    vec![]
+
+const ANCHOR_NS: [usize; 8] = [2, 3, 4, 5, 8, 11, 24, 40];
+
+pub fn stages(ctx: &Ctx) -> Vec<Stage> {
+    let seed = ctx.seed;
+    let tier = ctx.tier;
+    let mut st = vec![];
+    // anchors: fixed seed; 8 sizes x 3 data modes x 4 (constructor, field)
+    st.push(Stage::new("anchors", (ANCHOR_NS.len() * 3 * 4) as u64, move |i, rep| {
+        let mut rng = Rng::for_case(424242, "c16-anchor", i);
+        let n = ANCHOR_NS[((i / 4) % 8) as usize];
+        let mode = [DataMode::Arbitrary, DataMode::Smooth, DataMode::Reproduce][(i / 32) as usize];
+        run_case(rep, &mut rng, i, n, mode, "anchors");
+    }));
+    st.push(Stage::new("random", tier.pick(6_000, 100_000), move |i, rep| {
+        let mut rng = Rng::for_case(seed, "c16-random", i);
+        let n = match rng.below(10) {
+            0 => 2 + rng.below(3),
+            1 | 2 => 4 + rng.below(6),
+            _ => 2 + rng.below(39),
+        };
+        let mode = match rng.below(10) {
+            0..=5 => DataMode::Arbitrary,
+            6 | 7 => DataMode::Smooth,
+            _ => DataMode::Reproduce,
+        };
+        run_case(rep, &mut rng, i, n, mode, "random");
+    }));
+    st.push(Stage::new("errors", tier.pick(800, 8_000), move |i, rep| {
+        let mut rng = Rng::for_case(seed, "c16-err", i);
+        let kind = i % 4;
+        let clamped = (i / 4) % 2 == 1;
+        if (i / 8) % 2 == 1 {
+            err_case::<C64>(rep, &mut rng, kind, clamped);
+        } else {
+            err_case::<f64>(rep, &mut rng, kind, clamped);
+        }
+    }));
+    st
 }
-pub fn thresholds(_ctx: &Ctx, _rep: &Report) -> Vec<Threshold> {
-    vec![Threshold { what: "check not built".into(), required: 1.0, observed: 0.0 }]
+
+pub fn thresholds(ctx: &Ctx, rep: &Report) -> Vec<Threshold> {
+    let mut t = vec![];
+    for name in ["free/f64", "free/complex", "clamped/f64", "clamped/complex"] {
+        t.push(Threshold { what: format!("{} splines compared with the reference", name), required: ctx.tier.pick(1_200.0, 20_000.0), observed: rep.counter(&format!("{}/splines", name)) as f64 });
+        t.push(Threshold { what: format!("{}: observations one ulp left and right of interior knots", name), required: ctx.tier.pick(16_000.0, 300_000.0), observed: (rep.counter(&format!("{}/points_knot-1ulp", name)) + rep.counter(&format!("{}/points_knot+1ulp", name))) as f64 });
+        t.push(Threshold { what: format!("{}: interior knots at which the second derivative was compared across the knot", name), required: ctx.tier.pick(8_000.0, 150_000.0), observed: rep.counter(&format!("{}/c2_knots_checked", name)) as f64 });
+        t.push(Threshold { what: format!("{}: splines through cubic / linear data", name), required: ctx.tier.pick(120.0, 2_000.0), observed: rep.counter(&format!("{}/reproduction_splines", name)) as f64 });
+    }
+    for name in ["free/f64", "free/complex"] {
+        t.push(Threshold { what: format!("{}: free ends at which S'' = 0 was checked", name), required: ctx.tier.pick(2_400.0, 40_000.0), observed: rep.counter(&format!("{}/free_ends_checked", name)) as f64 });
+    }
+    for name in ["clamped/f64", "clamped/complex"] {
+        t.push(Threshold { what: format!("{}: prescribed end slopes checked", name), required: ctx.tier.pick(2_400.0, 40_000.0), observed: rep.counter(&format!("{}/end_slopes_checked", name)) as f64 });
+    }
+    for sig in ["evaluate-outside-range", "evaluate_derivative-outside-range", "fewer-than-two-points", "mismatched-lengths", "decreasing-knots"] {
+        t.push(Threshold { what: format!("Err cases of kind {}", sig), required: ctx.tier.pick(190.0, 1_900.0), observed: rep.counter(&format!("err/{}", sig)) as f64 });
+    }
+    t.push(Threshold { what: "splines with >= 4 knots and spacing ratio >= 2".into(), required: ctx.tier.pick(3_000.0, 50_000.0), observed: rep.counter("nontrivial_splines") as f64 });
+    t
 }
